@@ -351,6 +351,27 @@ class Shapes(UperBase):
 
 # ------------------------------------------------------------------------------------------- C02
 
+# zoo types whose declaration order differs from the X.691 order (14.1: ENUMERATED indices follow the
+# numeric values; 23.4 with X.680 8.6: CHOICE indices follow the canonical tag order): textual
+# index -> canonical index.  The descriptor has lost that information, so the expectation is computed
+# here from the zoo source.
+CANON_ORDER = {
+    "zoo_leaf::EnumOrd": [2, 0, 1],      # hi(5), lo(2), mid(3)
+    "zoo_leaf::ChoiceOrd": [2, 0, 1],    # z [5], a [2], m [3]
+}
+
+
+def canon_expected(name, val):
+    """X.691 bits of a value of one of the CANON_ORDER types"""
+    m = CANON_ORDER[name]
+    v = uperlib.parse_sx(val)
+    if v[0] == "enum":
+        return format(m[int(v[1])], "02b")
+    i = int(v[1])
+    body = {0: lambda x: x[1], 1: lambda x: format(int(x[1]), "03b"), 2: lambda x: ""}[i](v[2])
+    return format(m[i], "02b") + body
+
+
 class Conformance(UperBase):
     """implementation bits vs. the independent X.691 specification (computed by the driver from
     X691/Encode.lean, never from the code mirror), and the reader on the specification's bits"""
@@ -391,7 +412,7 @@ class Conformance(UperBase):
         if ans in ("panic", "abort", "hang"):
             return "panic/abort"
         if req.split(" ")[1] == "xdec":
-            if not self.in_profile(req):
+            if not self.in_profile(req) or self.req_name(req) in CANON_ORDER:
                 return None
             items = uperlib.split_sx(req.split(" ", 3)[3])
             val, bits = items[1], items[2]
@@ -408,6 +429,12 @@ class Conformance(UperBase):
     def oracle_model(self, req, ans, model_ans):
         if req.split(" ")[1] != "conf" or not self.in_profile(req):
             return None
+        if self.req_name(req) in CANON_ORDER:
+            if ans.startswith("ok "):
+                want = canon_expected(self.req_name(req), uperlib.split_sx(req.split(" ", 3)[3])[1])
+                if ans[3:] != want:
+                    return f"index does not follow the X.691 order (numeric value / canonical tag): expected {want}"
+            return None
         spec = model_ans.partition(" x691:")[2]
         if not ans.startswith("ok "):
             return None
@@ -420,6 +447,8 @@ class Conformance(UperBase):
     def finding_class(self, req, ans):
         items = uperlib.split_sx(req.split(" ", 3)[3])
         nodes = ty_nodes(items[0])
+        if self.req_name(req) in CANON_ORDER:
+            return "uper.index_textual_order"
         if any(len_deviates(nd) for nd in nodes):
             return "uper.len_ub_ge_64k"
         if any(int_semi(nd) for nd in nodes):
